@@ -118,6 +118,32 @@ fn main() {
             let ph = api::Val::dec(&args[3]).expect("placeholder");
             println!("{}", api::eval(ev, &args[4], &ph).enc());
         }
+        "coldstart" => {
+            // 16 threads released together: each makes the given call first, then every cold-start expression (rotated)
+            let ev0 = api::Ev::from_name(&args[2]).expect("evaluator");
+            let first = args[3].clone();
+            let all = props::c16::cold_start_exprs();
+            let barrier = std::sync::Arc::new(std::sync::Barrier::new(16));
+            let mut hs = Vec::new();
+            for t in 0..16usize {
+                let (b, first, all) = (barrier.clone(), first.clone(), all.clone());
+                hs.push(std::thread::Builder::new().stack_size(8 << 20).spawn(move || {
+                    let mut out = Vec::new();
+                    b.wait();
+                    out.push(format!("{}\t{}\t{}\t{}", t, ev0.name(), first, api::eval(ev0, &first, &api::Val::default_for(ev0)).enc()));
+                    for k in 0..all.len() {
+                        let (ev, x) = all[(k + t * 3) % all.len()];
+                        out.push(format!("{}\t{}\t{}\t{}", t, ev.name(), x, api::eval(ev, x, &api::Val::default_for(ev)).enc()));
+                    }
+                    out
+                }).unwrap());
+            }
+            for h in hs {
+                for l in h.join().unwrap() {
+                    println!("{}", l);
+                }
+            }
+        }
         "c18cases" => {
             // (bits, expected probe line) pairs for the feature stage of C18: Number::from in builds with fewer features
             use proptest::strategy::{Strategy, ValueTree};
